@@ -290,9 +290,10 @@ class Context(MutableMapping[Identifier, Symbol]):
         Returns:
             list[Import]: The starred imports.
         """
+        # NOTE In declaration order, `declared_symbols` is an (unordered) set
         return [
             symbol
-            for symbol in self.declared_symbols
+            for symbol in self.symbol_table.symbols
             if isinstance(symbol, Import) and symbol.name == "*"
             if symbol.origin not in seen_by_origin or ()
         ]
